@@ -4,6 +4,7 @@
 package patchjson6902
 
 import (
+	"fmt"
 	"strings"
 
 	jsonpatch "gopkg.in/evanphx/json-patch.v4"
@@ -43,6 +44,13 @@ func (pf Filter) decodePatch() (jsonpatch.Patch, error) {
 	decodedPatch, err := jsonpatch.DecodePatch([]byte(patch))
 	if err != nil {
 		return nil, err
+	}
+	for _, op := range decodedPatch {
+		// RFC 6902 requires a "value" member in a test operation; the jsonpatch
+		// library dereferences the missing value when the path is absent too.
+		if _, hasValue := op["value"]; op.Kind() == "test" && !hasValue {
+			return nil, fmt.Errorf("test operation of the JSON patch has no value: %s", pf.Patch)
+		}
 	}
 	return decodedPatch, nil
 }
